@@ -109,3 +109,14 @@ func SameState(ctx sdk.Context, s *StateSnap) bool {
 	}
 	return true
 }
+
+// ForkContext returns a context (same header) over an independent copy of every KV store.
+func ForkContext(old sdk.Context) sdk.Context {
+	n := NewContext(old.BlockHeight(), 0, old.ChainID()).WithBlockTime(old.BlockTime())
+	for _, name := range storeOrder {
+		for k, v := range dumpStore(old, storeKeys[name]) {
+			n.KVStore(storeKeys[name]).Set([]byte(k), []byte(v))
+		}
+	}
+	return n
+}
